@@ -110,10 +110,18 @@ Section V1.
     match ssort v1_cmp block with
     | [] => (None, st)
     | first :: rest =>
+        (* what the auth events held for this key before (F78: it is put back afterwards) *)
+        let previous := match auth_key (e_type first) (e_skey first) with
+                        | Some k => smap_get (v_auth st) k
+                        | None => None
+                        end in
         let st1 := mkV1 (add_auth_event (v_auth st) first) (v_result st) (v_log st) in
         let cs := auth_block_walk rest first st1 in
         let st2 := snd cs in
-        (Some (fst cs), mkV1 (remove_auth_event (v_auth st2) (fst cs)) (v_result st2) (v_log st2))
+        let removed := remove_auth_event (v_auth st2) (fst cs) in
+        (Some (fst cs),
+         mkV1 (match previous with Some p => add_auth_event removed p | None => removed end)
+              (v_result st2) (v_log st2))
     end.
 
   (* resolveAndAddAuthBlocks: results are registered for auth only once the whole type is done *)
